@@ -68,6 +68,10 @@ def check(run, prog, tier):
     run.rule("C18-L", "text files keep the shape of what was exported (rank written, nothing squeezed on reading), and an axis "
                       "filled from a file is changed as a whole (points, start, step, length)", minimum=5)
     rule_L(run, prog)
+    run.rule("C18-O", "data read from a text file get the rank recorded in the file: where a rank was recorded the array is brought to "
+                      "exactly that rank; dropping 'all dimensions of length one' (squeeze without an axis) is what is done when no rank "
+                      "was recorded, only then", minimum=1)
+    rule_O(run, prog)
     run.rule("C18-N", "saving and loading leave the position of a file handed in by the caller alone (except under the test option)", minimum=4)
     rule_N(run, prog)
     run.rule("C18-M", "the save/load entry points of every class call the routines they delegate to with arguments these take "
@@ -182,6 +186,82 @@ def rule_L(run, prog):
                            loc=f.loc(att["data"]), sample={"axis": obj})
     if n < 5:
         raise AnalysisError("C18-L: only %d text readers/writers and axis assignments found" % n)
+
+
+def _implies_none(test, name, when):
+    """Does `test` being `when` (True/False) imply that <name> is None?"""
+    t_, neg = test, False
+    while isinstance(t_, ast.UnaryOp) and isinstance(t_.op, ast.Not):
+        t_, neg = t_.operand, not neg
+    want = when != neg
+    if isinstance(t_, ast.Compare) and len(t_.ops) == 1 and isinstance(t_.left, ast.Name) and t_.left.id == name \
+            and isinstance(t_.comparators[0], ast.Constant) and t_.comparators[0].value is None:
+        return isinstance(t_.ops[0], ast.Is) == want
+    if isinstance(t_, ast.BoolOp):
+        if isinstance(t_.op, ast.And) and want:
+            return any(_implies_none(v, name, True) for v in t_.values)
+        if isinstance(t_.op, ast.Or) and not want:
+            return any(_implies_none(v, name, False) for v in t_.values)
+    return False
+
+
+def _ends(stmts):
+    return bool(stmts) and isinstance(stmts[-1], (ast.Return, ast.Raise))
+
+
+def rule_O(run, prog):
+    """'... returns the same values': an array of one value, a (1, N) row, an (N, 1) column and an (N,) vector are four
+    different arrays.  The exporters record the rank; the function that gives the table read with ndmin=2 its rank back
+    knows it (`ndim`).  numpy.squeeze without an axis makes the rank depend on the *shape*: a one-dimensional array with
+    one element comes back as a number.  Every such call in the text importers stands where `ndim is None` holds: in the
+    arm of an `if` that implies it, or after an `if ndim is not None` whose body leaves the function."""
+    from ..loader import parents_map
+    rid = "C18-O"
+    n = 0
+    for q in ("quantarhei.core.matrixdata", "quantarhei.core.datasaveable"):
+        prog.module(q)
+    for f in list(prog.all_functions()):
+        if f.module.name not in ("quantarhei.core.matrixdata", "quantarhei.core.datasaveable") or not hasattr(f.node, "args"):
+            continue
+        names = {a.arg for a in f.node.args.args} | {x.id for x in walk_no_nested(f.node) if isinstance(x, ast.Name)
+                                                     and isinstance(x.ctx, ast.Store)}
+        if "ndim" not in names:
+            continue
+        n += 1
+        prog.consulted.add(f.relpath)
+        pm = parents_map(f.node)
+        bad = None
+        for c in walk_no_nested(f.node):
+            if not (isinstance(c, ast.Call) and (call_name(c) or "").split(".")[-1] == "squeeze"):
+                continue
+            if any(k.arg == "axis" for k in c.keywords) or len(c.args) > 1:
+                continue                      # a named axis: the rank of the result is fixed
+            ok = False
+            x = c
+            while x is not None and x is not f.node and not ok:
+                p_ = pm.get(x)
+                if isinstance(p_, ast.If) and x is not p_.test:
+                    ok = _implies_none(p_.test, "ndim", x in p_.body)
+                if not ok and p_ is not None:
+                    for fld in ("body", "orelse"):
+                        blk = getattr(p_, fld, None)
+                        if isinstance(blk, list) and x in blk:
+                            for prev in blk[:blk.index(x)]:
+                                if isinstance(prev, ast.If) and ((_ends(prev.body) and _implies_none(prev.test, "ndim", False))
+                                                                 or (_ends(prev.orelse) and _implies_none(prev.test, "ndim", True))):
+                                    ok = True
+                x = p_
+            if not ok:
+                bad = c
+                break
+        run.obligation(rid, f.short, bad is None, key="rank-restored",
+                       message="%s knows the rank recorded in the file (`ndim`) and calls `%s` where a rank may have been recorded: the "
+                               "dimensions dropped depend on the shape, not on the record - a one-dimensional array holding one value "
+                               "comes back as a number, a (1, 1) matrix recorded as one-dimensional likewise"
+                               % (f.short, norm(bad)[:50] if bad is not None else ""),
+                       loc=f.loc(bad if bad is not None else f.node))
+    if n < 1:
+        raise AnalysisError("C18-O: no function of the text importers handles a recorded rank (`ndim`)")
 
 
 def rule_K(run, prog):
